@@ -6,7 +6,7 @@
 out=/verif/seeded/RESULTS.txt
 if [ $# -eq 0 ]; then
   : > $out
-  set -- $(cd /verif/seeded && ls -d C[0-9]* S[0-9]* T[0-9]* U[0-9]* V[0-9]* W[0-9]* 2>/dev/null)
+  set -- $(cd /verif/seeded && ls -d C[0-9]* S[0-9]* T[0-9]* U[0-9]* V[0-9]* W[0-9]* X[0-9]* 2>/dev/null)
 fi
 for id in "$@"; do
   d=/verif/seeded/$id
